@@ -16,7 +16,7 @@ TEXT = {
             "induction over schedules on the model + transfer correspondence + lock-step oracle"),
     "C03": ("C03_*: decap_end delivers only when natural-number length and CRC verify over the concatenated accepted payloads; CRC-32 burst detection (LFSR algebra) for bursts <= 32 bits",
             "refinement to an abstract reassembler + CRC burst algebra + fault-injection correspondence and independent reassembler oracle"),
-    "C04": ("C04_*: joint sender/receiver invariant (label memories agree after every op), attribution of every status to the intended label, receiver-only resolution to the nearest preceding start/complete label",
+    "C04": ("C04_*: end-to-end delivery of fragmented PDUs in the joint machine (C04_delivery_frag_jrun); joint sender/receiver invariant (label memories agree after every op), attribution of every status to the intended label, receiver-only resolution to the nearest preceding start/complete label",
             "invariant by induction over joint histories + lock-step re-use histories"),
     "C05": ("C05_*: DecInv preserved by every public operation; decap and the peek never return panic; consumed <= len and >= min(2,len)",
             "invariant + totality theorem (every Rust panic site is a model outcome) + exhaustive short inputs / header x truncation correspondence"),
@@ -24,7 +24,7 @@ TEXT = {
             "layer lemmas (closed form of the bytes written) + independent wire parser oracle on boundary lattices"),
     "C07": ("C07_*: frame lemma (a packet of frag id j leaves every other saved context unchanged, aliasing included), restart touches only its id",
             "frame theorem on the memory/decap model + exhaustive interleavings with strays"),
-    "C08": ("C08_*: per-operation conservation of the multiset of storage identities (free list + slots + handed out), lifted to every history",
+    "C08": ("C08_*: per-operation conservation of the multiset of storage identities (free list + slots + handed out), lifted to every history; on an error the free list never shrinks and no slot is filled (rejected traffic cannot exhaust the receiver)",
             "multiset conservation theorem with ghost storage identities + identity-tracking oracle through hooks"),
     "C09": ("C09_*: encap, encap_frag, encap_ext and both previews never return panic; on err the buffer and the encapsulator are unchanged; mandatory rejections",
             "totality + failure-atomicity theorems over the order of writes in the model + full-buffer digest / state comparison on lattices"),
